@@ -95,6 +95,18 @@ impl Visitor<Diagnostic> for SymbolTable<'_, Id, DummyNode> {
         ret
     }
 
+    fn visit_configuration_declaration(
+        &mut self,
+        node: &ironplc_dsl::configuration::ConfigurationDeclaration,
+    ) -> Result<(), Diagnostic> {
+        // Global variables are visible to a POU through VAR_EXTERNAL, not by
+        // having been declared earlier in the library.
+        self.enter();
+        let ret = node.recurse_visit(self);
+        self.exit();
+        ret
+    }
+
     fn visit_var_decl(&mut self, node: &VarDecl) -> Result<Self::Value, Diagnostic> {
         self.add_if(node.identifier.symbolic_id(), DummyNode {});
         node.recurse_visit(self)
